@@ -101,6 +101,89 @@ pub fn main(a: &Args) {
             run_case(lints, &mut out, "doc");
         }
     }
+    // the JS-facing linter: what it returns is overlap removal applied to what the rules produced
+    if let Some(corpus) = a.get("corpus") {
+        let texts = crate::util::read_corpus(corpus);
+        let dialects = [harper_wasm::Dialect::American, harper_wasm::Dialect::British];
+        let mut linters: Vec<harper_wasm::Linter> = dialects.iter().map(|d| harper_wasm::Linter::new(*d)).collect();
+        for k in 0..a.num("wasm-docs", 0) as usize {
+            let t = overlap_prone_text(&mut rng, &texts);
+            let md = k % 3 == 0;
+            let which = k % 2;
+            let r = crate::util::catch(std::panic::AssertUnwindSafe(|| {
+                let got = linters[which].lint(t.clone(), if md { harper_wasm::Language::Markdown } else { harper_wasm::Language::Plain });
+                got.iter().map(|l| (l.span().start, l.span().end, l.message())).collect::<Vec<_>>()
+            }));
+            let Ok(got) = r else { out.emit(&json!({"ev": "Panic", "src": "wasm", "text": t})); linters[which] = harper_wasm::Linter::new(dialects[which]); continue };
+            // the same rules' raw output (curated configuration, same dictionary shape and dialect)
+            let raw = raw_lints(&t, md, None, if which == 0 { harper_core::Dialect::American } else { harper_core::Dialect::British });
+            out.emit(&case_from(&raw, &got, "wasm", &t));
+        }
+    }
     let n = out.finish();
     println!("{}", json!({"events": n}));
+}
+
+/// one line of prose in which rules tend to collide: runs of a repeated word, misspelt repeats, doubled articles
+pub fn overlap_prone_text(rng: &mut Rng, texts: &[String]) -> String {
+    let runs = ["the the the", "in in in in", "teh teh teh", "is is is a an", "an an apple", "a a a", "very very very", "to to too", "its its it's",
+                "there there their", "and and , and", "THE THE the", "that that that that"];
+    let mut t = String::new();
+    for i in 0..rng.range(1, 3) {
+        if i > 0 { t.push(' '); }
+        let s: String = rng.pick(texts).chars().filter(|c| *c != '\n' && *c != '\r').take(70).collect();
+        let ws: Vec<&str> = s.split(' ').collect();
+        let at = rng.below(ws.len() + 1);
+        let mut parts: Vec<String> = ws[..at].iter().map(|x| x.to_string()).collect();
+        if rng.chance(3, 4) { parts.push(rng.pick(&runs[..]).to_string()); }
+        parts.extend(ws[at..].iter().map(|x| x.to_string()));
+        t.push_str(&parts.join(" "));
+    }
+    t
+}
+
+/// What the rules produce before overlap removal, through the same steps as harper-cli / harper-wasm:
+/// merged dictionary (curated + an empty user dictionary), Markdown or plain parser, curated group.
+pub fn raw_lints(text: &str, md: bool, only: Option<&[String]>, dialect: harper_core::Dialect) -> Vec<(usize, usize, String)> {
+    use harper_core::linting::{LintGroup, Linter};
+    use harper_core::{Document, FstDictionary, MergedDictionary, MutableDictionary};
+    let mut m = MergedDictionary::new();
+    m.add_dictionary(FstDictionary::curated());
+    m.add_dictionary(std::sync::Arc::new(MutableDictionary::new()));
+    let m = std::sync::Arc::new(m);
+    let doc = if md { Document::new(text, &harper_core::parsers::Markdown::default(), &m) } else { Document::new(text, &harper_core::parsers::PlainEnglish, &m) };
+    let mut lg = LintGroup::new_curated(m.clone(), dialect);
+    if let Some(rules) = only {
+        lg.set_all_rules_to(Some(false));
+        for r in rules { lg.config.set_rule_enabled(r.clone(), true); }
+    }
+    lg.lint(&doc).into_iter().map(|l| (l.span.start, l.span.end, l.message)).collect()
+}
+
+/// A Case event from raw lints and the reported (span, message) list: each reported lint is matched to the first
+/// unused raw lint with the same span and message; one that matches nothing gets id 0 ("invented").
+pub fn case_from(raw: &[(usize, usize, String)], got: &[(usize, usize, String)], tag: &str, text: &str) -> Value {
+    let input: Vec<Value> = raw.iter().enumerate().map(|(i, l)| json!({"id": i + 1, "s": l.0, "e": l.1, "dig": digest(&l.2)})).collect();
+    let mut used = vec![false; raw.len()];
+    let outj: Vec<Value> = got.iter().map(|g| {
+        let k = (0..raw.len()).find(|k| !used[*k] && raw[*k] == *g);
+        if let Some(k) = k { used[k] = true; }
+        json!({"id": k.map(|k| k + 1).unwrap_or(0), "s": g.0, "e": g.1, "dig": digest(&g.2)})
+    }).collect();
+    json!({"ev": "Case", "src": tag, "in": input, "out": outj, "text": text})
+}
+
+/// `hv c13cli --jobs F`: per job {text, rules|null, dialect} the raw lints harper-cli's pipeline produces (one JSON line each)
+pub fn cli_main(a: &Args) {
+    for j in read_ndjson(a.req("jobs")) {
+        let rules: Option<Vec<String>> = j["rules"].as_array().map(|v| v.iter().map(|x| x.as_str().unwrap().to_string()).collect());
+        let dialect = match j["dialect"].as_str().unwrap_or("American") { "British" => harper_core::Dialect::British, "Canadian" => harper_core::Dialect::Canadian,
+            "Australian" => harper_core::Dialect::Australian, _ => harper_core::Dialect::American };
+        let text = j["text"].as_str().unwrap().to_string();
+        let r = crate::util::catch(|| raw_lints(&text, true, rules.as_deref(), dialect));
+        match r {
+            Ok(raw) => println!("{}", json!({"raw": raw.iter().map(|l| json!({"s": l.0, "e": l.1, "msg": l.2})).collect::<Vec<_>>()})),
+            Err(p) => println!("{}", json!({"panic": p})),
+        }
+    }
 }
